@@ -283,6 +283,15 @@ def check_documented(P, ctx):
         hits = [n for n in g.live() if n['kind'] == 'cond' and
                 any(ir.callee_name(c) == 'eq' for c in ir.calls(n['expr']))]
         key = '%s.Get.rem:miss' % T
+        if T in ('Array', 'List'):
+            # decided by evaluation on small instances (seqmodel): rem of an absent element raises ValueError with the container unchanged
+            from . import seqmodel
+            badv, badr, unsup_, _n = seqmodel.list_ops(P, T)['rem']
+            if unsup_ and not badr:
+                ctx.undecided(rule, key, site(fn), 'rem leaves the evaluated fragment: ' + unsup_)
+            else:
+                ctx.check(badr is None, rule, key, site(fn), 'rem of an element that is not present raises ValueError (evaluated on containers of 0..3 elements)', [badr] if badr else None)
+            continue
         if len(hits) != 1:
             ctx.undecided(rule, key, site(fn), 'expected exactly one equality hit test in %s, found %d' % (fname, len(hits)))
             continue
@@ -696,6 +705,8 @@ def run(ctx, load):
     from . import seqmodel
     seqmodel.report_list_ops(P, ctx, 'C12.refused-list-operation', 'refused', site)
     ctx.floor('C12.refused-list-operation', 6)
+    seqmodel.report_list_ops(P, ctx, 'C12.refused-array-operation', 'refused', site, T='Array')
+    ctx.floor('C12.refused-array-operation', 6)
 
 
 EXPLANATION = (
